@@ -23,7 +23,9 @@ VERIF = os.path.dirname(os.path.dirname(os.path.abspath(__file__)))
 REPO = os.environ.get('VERIF_REPO', '/repo')
 LEAN = os.path.join(VERIF, 'lean')
 PY = '/venv/bin/python'
-EVID = os.path.join(VERIF, 'evidence')
+# evidence/ only ever records runs against /repo itself; a run against a scratch worktree (VERIF_REPO, used to
+# validate seeded changes) writes its evidence next to the replay files instead
+EVID = os.path.join(VERIF, 'evidence') if REPO == '/repo' else os.path.join(VERIF, 'replay', 'evidence-scratch')
 REPLAY = os.path.join(VERIF, 'replay')
 LOCKS = os.path.join(VERIF, '.locks')
 ALLOWED_AXIOMS = {'propext', 'Classical.choice', 'Quot.sound'}
